@@ -44,7 +44,11 @@ def main():
             tmp = tempfile.mkdtemp(prefix="bvm-seeded-")
             try:
                 copy_repo(tmp)
-                subprocess.run(["git", "apply", "--unsafe-paths", "--directory", tmp, os.path.join(d, "patch.diff")], check=True, cwd="/")
+                ap = subprocess.run(["git", "apply", "--unsafe-paths", "--directory", tmp, os.path.join(d, "patch.diff")], cwd="/")
+                if ap.returncode != 0:
+                    print("%-28s PATCH DOES NOT APPLY to the current tree (re-make it against HEAD)" % sid, flush=True)
+                    results.append((sid, "-", -1, 0, []))
+                    continue
                 for prop in meta.get("checks", [meta["property"]]):
                     rc, mechs, dt, out = run_check(prop, tmp)
                     results.append((sid, prop, rc, dt, mechs[:2]))
